@@ -162,7 +162,15 @@ theorem descPart_of_ok (o : SdlPrintT.OptsT) (hind : Blank o.indent) (hdesc : o.
   cases d with
   | none => exact Or.inl ⟨rfl, rfl⟩
   | some x =>
-    simp only [descOKT, descTextOK, Bool.and_eq_true, Bool.not_eq_true', List.all_eq_true] at h
+    by_cases hx0 : x.isEmpty = true
+    · refine Or.inl ⟨by simp [SdlPrintT.printDescription, hx0], ?_⟩
+      simp [descToDoc, hx0, descOf, descV, optV, Item.yieldAll]
+    have h : descTextOK (depth * o.indent.length) x = true := by
+      simp only [descOKT, Bool.or_eq_true] at h
+      rcases h with h | h
+      · exact absurd h hx0
+      · exact h
+    simp only [descTextOK, Bool.and_eq_true, Bool.not_eq_true', List.all_eq_true] at h
     obtain ⟨⟨⟨⟨⟨⟨hxne, htne⟩, hch⟩, hw⟩, hfb⟩, hlb⟩, hshape⟩ := h
     have hind' := blank_repeatText o.indent hind depth
     have hlen := length_repeatText o.indent depth
